@@ -141,7 +141,8 @@ class BufferRoles:
         self.callfunc = [n for n in G.nodes if n.kind == 'await' and isinstance(n.ast.value, ast.Call) and self_attr(n.ast.value.func) == 'func']
         # round loop: governed by FLAG.is_set()
         rb = [n for n in G.nodes if n.kind == 'branch' and isinstance(n.meta['test'], ast.Call) and isinstance(n.meta['test'].func, ast.Attribute)
-              and n.meta['test'].func.attr == 'is_set' and rpath(G, n, n.meta['test'].func.value) == self.FLAG]
+              and n.meta['test'].func.attr == 'is_set' and rpath(G, n, n.meta['test'].func.value) == self.FLAG
+              and not n.meta.get('in_assert')]       # (an assert about the flag states an invariant, it governs nothing)
         if not rb:
             raise AnalysisError('round loop (test of the completion flag in the daemon) not found')
         self.round_branch = rb[0]
